@@ -6,9 +6,12 @@ import (
 
 	"github.com/tuneinsight/lattigo/v6/core/rlwe"
 	"github.com/tuneinsight/lattigo/v6/ring"
+	"github.com/tuneinsight/lattigo/v6/schemes/bgv"
+	"github.com/tuneinsight/lattigo/v6/schemes/ckks"
 
 	"verif/engine"
 	"verif/ref"
+	"verif/uni"
 )
 
 // Item 2 — generated moduli.
@@ -258,6 +261,136 @@ func bornExhaustedScenario() engine.Scenario {
 	}}
 }
 
+// genLiteralScenario: moduli generated by the parameter constructors (rlwe / ckks / bgv NewParametersFromLiteral with
+// LogQ/LogP) for ring type x LogN x LogNthRoot in {unset, the ring's own root order (2N standard, 4N conjugate
+// invariant), +1, +2, +4} x (LogQ, LogP) shapes. The literal's doc: LogNthRoot is "the log2 of the root order the
+// generated moduli must enable" -- the larger of the request and the ring's own order is what the primes must be 1
+// modulo. Oracle: accepted; as many primes as requested; every prime is prime, = 1 mod 2^max(own, requested), of the
+// requested size, pairwise distinct over Q and P; the parameters' own ring getters still describe the ring of degree N
+// (NthRoot() is documented as "the NthRoot of the ring": 2N / 4N); the chain is usable in the larger ring the root
+// order was requested for: ring.NewRing(2^(LogNthRoot-1), Q) and (…, P) succeed and an NTT round trip there is exact.
+func genLiteralScenario(s scheme, rt ring.Type, logN int) engine.Scenario {
+	name := fmt.Sprintf("gen/literal/%s/%s/LogN=%d", s, rtName(rt), logN)
+	own := logN + 1
+	if rt == ring.ConjugateInvariant {
+		own = logN + 2
+	}
+	offsets := []int{-1, 0, 1, 2, 4} // -1: unset
+	shapes := []struct{ q, p []int }{
+		{[]int{45, 45}, []int{46}},
+		{[]int{30, 30, 30}, []int{31, 31}},
+		{[]int{55}, nil},
+		{[]int{40, 40}, []int{40}}, // Q and P of one size: one generator serves both
+		{[]int{60, 50, 40, 50}, []int{61}},
+		{[]int{36, 25, 25}, []int{36, 36}},
+	}
+	return engine.Scenario{Name: name, Bound: -1, Fn: func(c *engine.Chooser) {
+		off := offsets[c.Choose(len(offsets), "LogNthRoot")]
+		sh := shapes[c.Choose(len(shapes), "shape")]
+		seed := uni.Seed(c, name, off, fmt.Sprint(sh.q, sh.p))
+		l := lit{sch: s}
+		l.rl.LogN, l.rl.RingType = logN, rt
+		l.rl.LogQ, l.rl.LogP = sh.q, sh.p
+		want := own
+		offName := "unset"
+		if off >= 0 {
+			l.rl.LogNthRoot = own + off
+			want = own + off
+			offName = fmt.Sprintf("own+%d", off)
+		}
+		defaults(&l)
+		if s == sBGV {
+			l.t = 65537 // = 1 mod 2^16: order 2^16 >= 2N for every LogN used here
+		}
+		tag := fmt.Sprintf("%s %s LogN=%d LogNthRoot=%d(%s) LogQ=%v LogP=%v", s, rtName(rt), logN, l.rl.LogNthRoot, offName, sh.q, sh.p)
+		class := "@" + rtName(rt) + "-LogNthRoot-" + offName
+		var out interface{}
+		r := guarded(name+tag, func() (err error) { out, err = l.construct(); return })
+		switch {
+		case r.hung || r.panicked != nil:
+			c.Fail("C19/gen/literal/constructor-panic-or-hang"+class, "%s: %v", tag, r)
+			return
+		case r.err != nil:
+			c.Fail("C19/gen/literal/legal-request-refused"+class, "%s: %v", tag, r.err)
+			return
+		}
+		var p rlwe.Parameters
+		switch v := out.(type) {
+		case rlwe.Parameters:
+			p = v
+		case ckks.Parameters:
+			p = v.Parameters
+		case bgv.Parameters:
+			p = v.Parameters
+		}
+		q, pp := p.Q(), p.P()
+		if len(q) != len(sh.q) || len(pp) != len(sh.p) {
+			c.Fail("C19/gen/literal/count"+class, "%s: %d Q primes for %d requests, %d P primes for %d", tag, len(q), len(sh.q), len(pp), len(sh.p))
+			return
+		}
+		nth := uint64(1) << want
+		seen := map[uint64]bool{}
+		for i, x := range q {
+			if !checkPrime(c, "C19/gen/literal"+class, fmt.Sprintf("%s Q[%d]", tag, i), x, nth, sh.q[i], seen) {
+				return
+			}
+		}
+		for i, x := range pp {
+			if !checkPrime(c, "C19/gen/literal"+class, fmt.Sprintf("%s P[%d]", tag, i), x, nth, sh.p[i], seen) {
+				return
+			}
+		}
+		// the parameters' ring is the one of degree N of the requested type
+		if p.N() != 1<<logN || p.RingType() != rt || p.NthRoot() != 1<<own || p.LogNthRoot() != own || int(p.RingQ().NthRoot()) != 1<<own {
+			c.Fail("C19/gen/literal/ring-getters"+class, "%s: N=%d RingType=%v NthRoot()=%d LogNthRoot()=%d RingQ().NthRoot()=%d, expected N=2^%d, root order 2^%d",
+				tag, p.N(), p.RingType(), p.NthRoot(), p.LogNthRoot(), p.RingQ().NthRoot(), logN, own)
+			return
+		}
+		// the literal handed back regenerates the same parameters (explicit Q/P: no LogNthRoot needed)
+		if back, err := rlwe.NewParametersFromLiteral(p.ParametersLiteral()); err != nil || !back.Equal(&p) {
+			c.Fail("C19/gen/literal/ParametersLiteral-roundtrip"+class, "%s: err=%v", tag, err)
+			return
+		}
+		// the chain in the ring the root order was asked for
+		for _, ch := range []struct {
+			n string
+			m []uint64
+		}{{"Q", q}, {"P", pp}} {
+			if len(ch.m) == 0 {
+				continue
+			}
+			var big *ring.Ring
+			g := guarded(name+tag+ch.n+"big", func() (err error) {
+				big, err = ring.NewRing(1<<(want-1), ch.m)
+				if err != nil {
+					return
+				}
+				pol := big.NewPoly()
+				for j := range pol.Coeffs {
+					for k := range pol.Coeffs[j] {
+						seed = seed*6364136223846793005 + 1442695040888963407
+						pol.Coeffs[j][k] = (seed >> 3) % ch.m[j]
+					}
+				}
+				cp := *pol.CopyNew()
+				big.NTT(pol, pol)
+				big.INTT(pol, pol)
+				if !pol.Equal(&cp) {
+					return fmt.Errorf("NTT round trip in the degree-2^%d ring is not the identity", want-1)
+				}
+				return
+			})
+			if g.hung || g.panicked != nil || g.err != nil {
+				c.Fail("C19/gen/literal/chain-unusable-in-requested-ring"+class, "%s: ring.NewRing(2^%d, %s=%v): %v", tag, want-1, ch.n, ch.m, g)
+				return
+			}
+		}
+		c.Cover("gen-literal", rtName(rt)+"-"+offName)
+		c.Count(len(q) + len(pp))
+		c.Outcome(name, offName, q, pp)
+	}}
+}
+
 func genScenarios(tier string) (scs, slow []engine.Scenario) {
 	roots := []int{5, 6, 11, 13, 17}
 	if tier == "thorough" {
@@ -265,6 +398,16 @@ func genScenarios(tier string) (scs, slow []engine.Scenario) {
 	}
 	for _, r := range roots {
 		scs = append(scs, genModuliScenario(r), generatorScenario(r))
+	}
+	logNs := []int{5}
+	if tier == "thorough" {
+		logNs = []int{4, 5, 7, 10}
+	}
+	for _, n := range logNs {
+		for _, rt := range []ring.Type{ring.Standard, ring.ConjugateInvariant} {
+			scs = append(scs, genLiteralScenario(sRLWE, rt, n), genLiteralScenario(sCKKS, rt, n))
+		}
+		scs = append(scs, genLiteralScenario(sBGV, ring.Standard, n))
 	}
 	scs = append(scs, exhaustedScenario(2))
 	slow = append(slow, exhaustedScenario(0), exhaustedScenario(1), bornExhaustedScenario())
